@@ -192,9 +192,9 @@ def render_workflow(targets, header="", defaults=None, wf_kwargs=""):
 
 
 class Project:
-    def __init__(self, root=None, prefix="gwfproj-"):
+    def __init__(self, root=None, prefix="gwfproj-", name="proj"):
         self.base = tempfile.mkdtemp(prefix=prefix)
-        self.root = root or os.path.join(self.base, "proj")
+        self.root = root or os.path.join(self.base, name)
         os.makedirs(self.root, exist_ok=True)
         self.simdir = os.path.join(self.base, "sim")
         self.tick_ns = 10 * 1_000_000_000  # one tick of the static mtime scale (default 10 s)
